@@ -4,12 +4,17 @@ import sys
 
 sys.path.insert(0, os.path.dirname(os.path.dirname(os.path.abspath(__file__))))
 import vcommon as V  # noqa: E402
+from gens import pipegen  # noqa: E402
 
 PROPS_FILE = "Props_C16.v"
 RULE = ("queues of 1-6 generated MRT files (TABLE_DUMP_V2 peer index table + RIB_IPV4/IPV6_UNICAST records; BGP4MP and BGP4MP_ET "
         "MESSAGE / MESSAGE_AS4 / STATE_CHANGE / STATE_CHANGE_AS4; OPEN/KEEPALIVE/NOTIFICATION/garbled messages and foreign TABLE_DUMP_V2 "
         "records interleaved; plain, gzip, bzip2; unreadable files in between) over a pool of 8 v4/v6 peers with AS2 and AS4 numbers, "
-        "enqueued in batches through the real HTTP queue endpoint, RIB queried between batches; a case is non-trivial when a query "
+        "enqueued in batches through the real HTTP queue endpoint, RIB queried between batches; in one case of five the BGP4MP records also "
+        "hold UPDATE octets from C04's proved encoder (IPv4/IPv6 unicast/multicast, MP_REACH / MP_UNREACH / conventional fields, End-of-RIB "
+        "forms, unknown AFI/SAFIs) and malformed variants of them - above all UPDATEs that are malformed in exactly one half (the last NLRI "
+        "inside MP_UNREACH_NLRI spoilt next to good conventional NLRI or a good MP_REACH_NLRI; the last NLRI inside MP_REACH_NLRI spoilt next "
+        "to good withdrawn routes or a good MP_UNREACH_NLRI), C04's spoilt tails and mutations; a case is non-trivial when a query "
         "returns at least one entry; distinct = distinct case text")
 TRUSTED_BASE = [
     "Coq 8.16.1 kernel (coqc; coqchk in thorough); no native_compute",
@@ -18,6 +23,10 @@ TRUSTED_BASE = [
     "Rust harness /verif/harness engine c16: MRT/BGP byte encoders written for this engine, real mrt-file-in unit through "
     "rotonda::verif::mrt_import (HTTP queue Processor -> queue -> MrtInRunner::run -> process_file -> Gate), a real RibUnitRunner linked "
     "behind the gate as direct-update target, Rib::match_prefix for the queries",
+    "op MB: the octets of the BGP message inside a BGP4MP record are read by C04's decoder (BgpModel.decode, the implementation's mode) through "
+    "Pipe/PipeRaw.v (numbering of wire prefixes and attribute lists) on the model side and handed to the unit as they are on the other; "
+    "lib/gens/pipegen.py (ASTs for oracle c04enc, the spoilt octet of the half-malformed UPDATEs, C04's mutations); PDUs on which C04's decoder "
+    "and routecore are known to differ (C04's recorded findings and its one tolerance) are left out - they are C04's business",
     "emulated in the hook, not exercised: the first lines of MrtFileIn::run that take name / ingress register / HTTP registration from the Component",
     "modelled, not verified: src/units/mrt_file_in/unit.rs (process_file, process_message, process_state_change, run), src/ingress.rs, "
     "src/units/rib_unit; routecore's MRT and BGP parsers are NOT modelled - what they accept, skip or panic on is written into the model "
@@ -25,7 +34,10 @@ TRUSTED_BASE = [
 ]
 ASSUMPTIONS = [
     "the BGP message inside a BGP4MP MESSAGE (AS2) record is encoded with four-octet AS paths, as the code assumes (it parses every record with SessionConfig::modern())",
-    "one address family of announcements and one of withdrawals per UPDATE; attributes identified by the first hop of the AS path",
+    "abstract ops (M, T): one address family of announcements and one of withdrawals per UPDATE, attribute sets identified by the attribute octets the "
+    "engine's encoder wrote for them; UPDATE octets (MB): any mix of families, attribute sets identified by length + FNV-1a of the stored octets",
+    "which of bgp_msg(), explode_announcements, explode_withdrawals turns an undecodable UPDATE down is not modelled: since the repair of process_file "
+    "each of them means 'logged and skipped' (checked on 300 half-malformed UPDATEs of every shape: all pass bgp_msg() and fail in exactly one explode)",
     "HashMap iteration order is arbitrary: where a lookup has several candidate ids the model lists all of them and the later RIB answers for that peer are not compared",
     "ids are named by the peer the register holds for them and, when a peer has several ids, by their rank in registration order",
     "files of one batch are enqueued by concurrent HTTP requests polled in file order; the unit consumes its queue sequentially",
@@ -52,12 +64,48 @@ def variant(rng, p):
     return v
 
 
-def update_file(rng, peers, n=None):
+# ---- UPDATEs as octets (op MB): from C04's proved encoder, and malformed variants of them
+HALF_HEX = {}     # hex -> shape, of the half-malformed UPDATEs handed out (for the evidence's distribution)
+
+
+def raw_plan16(rng):
+    """the UPDATEs one case may put into its BGP4MP records: (ast, post) pairs for pipegen.encode_plans"""
+    plan = []
+    for _ in range(rng.range(4, 9)):
+        k = rng.weighted([("half", 36), ("ann", 20), ("wd", 12), ("both", 10), ("tail", 8), ("mut", 6), ("eor", 3), ("unk", 3), ("eorlike", 2)])
+        if k == "half":
+            ast, post, shape = pipegen.half_ast(rng)
+            plan.append((ast, post, shape))
+        else:
+            ast, post = pipegen.raw_ast(rng, k)
+            plan.append((ast, post, None))
+    return plan
+
+
+def encode_raw(rng, plans):
+    """per plan the list of hex strings (PDUs C04 keeps for itself are left out); remembers which are half-malformed"""
+    kept = []
+    hexes = pipegen.encode_plans(V, rng, [[(a, p) for a, p, _ in pl] for pl in plans], kept=kept)
+    for pl, hs, js in zip(plans, hexes, kept):
+        for h, j in zip(hs, js):
+            if pl[j][2]:
+                HALF_HEX[h] = pl[j][2]
+    return hexes
+
+
+def update_file(rng, peers, n=None, raw=None):
     ops = ["F " + rng.choice("pgb")]
     for _ in range(n if n is not None else rng.range(1, 8)):
         p = rng.choice(peers)
-        k = rng.weighted([("M", 62), ("S", 16), ("K", 12), ("N", 10)])
-        if k == "M":
+        k = rng.weighted([("M", 62), ("S", 16), ("K", 12), ("N", 10), ("MB", 70 if raw else 0)])
+        if k == "MB":
+            h = rng.choice(raw)
+            ops.append("MB %d %d %s" % (variant(rng, p), p, h))
+            if h in HALF_HEX and rng.chance(30):
+                # nothing of such an UPDATE may be applied - not even the registration of its peer: an Established->Idle
+                # of a peer that is only known from it finds nobody to withdraw
+                ops.append("S %d %d 6 1" % (variant(rng, p), p))
+        elif k == "M":
             ops.append("M %d %d %s" % (variant(rng, p), p, upd(rng)))
         elif k == "S":
             old, new = (6, 1) if rng.chance(60) else (rng.range(1, 6), rng.range(1, 6))
@@ -83,7 +131,7 @@ def queries(rng, n):
     return ["Q %d %d" % (rng.below(2), rng.below(6)) for _ in range(n)]
 
 
-def gen_case(rng, kind):
+def gen_case(rng, kind, raw=None):
     ops = []
     seen = set()
     nfiles = rng.range(1, 6)
@@ -104,13 +152,13 @@ def gen_case(rng, kind):
             else:
                 ps = [rng.below(NPEERS) for _ in range(rng.range(1, 3))]
                 seen.update(ps)
-                ops += update_file(rng, ps)
+                ops += update_file(rng, ps, raw=raw)
         elif kind == "redump":
             if roll < 55:
                 ps = [rng.below(4) for _ in range(rng.range(1, 3))]
                 ops += dump_file(rng, ps)
             else:
-                ops += update_file(rng, [rng.below(4) for _ in range(2)])
+                ops += update_file(rng, [rng.below(4) for _ in range(2)], raw=raw)
         else:  # "stop": files routecore's iterator does not survive
             if roll < 50:
                 ps = sorted({rng.below(NPEERS) for _ in range(rng.range(1, 3))})
@@ -127,18 +175,24 @@ def gen_case(rng, kind):
                     f.insert(at, "T %d %d %d:%d" % (rng.below(2), rng.below(6), len(ps) + rng.below(3), rng.below(10)))
                 ops += f
             else:
-                ops += update_file(rng, [rng.below(NPEERS) for _ in range(2)])
+                ops += update_file(rng, [rng.below(NPEERS) for _ in range(2)], raw=raw)
         if rng.chance(35):
             ops += queries(rng, rng.range(1, 2)) if rng.chance(70) else ["W"]
     ops += queries(rng, rng.range(2, 5))
+    if raw:
+        # the prefixes the octets name (two of them are the abstract ops' prefixes 1 and 2)
+        ops += ["QX 0 " + x for x in pipegen.V4POOL] + ["QX 1 " + x for x in pipegen.V6POOL if rng.chance(60)]
     return ";".join(ops)
 
 
 def gen(rng, tier):
     n = 4000 if tier == "quick" else 40000
+    # one case in five also takes UPDATEs as octets: from C04's proved encoder and malformed variants (half-malformed above all)
+    rawn = [i for i in range(n) if i % 5 == 1]
+    hexes = dict(zip(rawn, encode_raw(rng.fork("enc"), [raw_plan16(rng.fork("raw%d" % i)) for i in rawn])))
     for i in range(n):
         kind = "clean" if i % 10 < 7 else ("redump" if i % 10 < 9 else "stop")
-        yield gen_case(rng, kind)
+        yield gen_case(rng, kind, raw=hexes.get(i) or None)
 
 
 def nontrivial(case, out):
@@ -160,6 +214,8 @@ def classify(case, out):
             ks.append("unreadable-file")
         elif o[0] == "I":
             ks.append("dump-file")
+        elif o[0] == "MB":
+            ks.append("update-octets-half-malformed:" + HALF_HEX[o[3]] if o[3] in HALF_HEX else "update-octets")
         elif o[0] in ("M", "S", "K"):
             ks.append({"2": "as2-record", "4": "as4-record", "12": "as2-et-record", "14": "as4-et-record"}[o[1]])
             if o[0] == "S":
@@ -204,6 +260,14 @@ def corpus():
         # known finding C16-1: one peer, two index entries / two dump files
         "F p;I 0,0;T 0 5 0:3,1:4;F p;M 4 0 0 7 5 0 -;Q 0 5",
         "F p;I 0;T 0 5 0:3;F p;I 0;T 0 5 0:4;F p;M 4 0 0 0 - 0 5;S 4 0 6 1;Q 0 5",
+        # the third repaired defect: an UPDATE that cannot be taken apart (here: bgp_msg() accepts it, the last NLRI inside its
+        # MP_UNREACH_NLRI / MP_REACH_NLRI has 200 bits) used to end the file; the records behind it must be imported, and
+        # nothing of the half that parses may be applied (all or nothing: 10.9.8.0/24 stays as announced first, 10.9.9.0/24 active)
+        "F p;MB 4 0 ffffffffffffffffffffffffffffffff003302000000144001010040020602010000fde9400304c0000201180a0908180a0909;MB 4 0 ffffffffffffffffffffffffffffffff003f02000000244001010040020602010000fde9400304c0000201800f0d0002014020010db800000001c8180a0908;MB 4 0 ffffffffffffffffffffffffffffffff004a020004180a0909002f4001010040020602010000fde9800e1f0002011020010db8000000000000000000000001004020010db800000001c8;M 4 0 0 4 1 0 -;QX 0 24/0a0908;QX 0 24/0a0909;Q 0 1",
+        # ... and its peer is not registered by it: the state change behind it finds nobody
+        "F p;MB 4 0 ffffffffffffffffffffffffffffffff004a020004180a0909002f4001010040020602010000fde9800e1f0002011020010db8000000000000000000000001004020010db800000001c8;S 4 0 6 1;MB 4 1 ffffffffffffffffffffffffffffffff003f02000000244001010040020602010000fde9400304c0000201800f0d0002014020010db800000001c8180a0908;S 4 1 6 1;M 4 2 0 4 1 0 -;S 4 2 6 1;Q 0 1",
+        # the same UPDATEs in AS2 / _ET records of other peers, a good UPDATE from the wire (withdraw .9, announce .8) behind them
+        "F g;MB 2 0 ffffffffffffffffffffffffffffffff003302000000144001010040020602010000fde9400304c0000201180a0908180a0909;MB 14 3 ffffffffffffffffffffffffffffffff003f02000000244001010040020602010000fde9400304c0000201800f0d0002014020010db800000001c8180a0908;MB 12 2 ffffffffffffffffffffffffffffffff004a020004180a0909002f4001010040020602010000fde9800e1f0002011020010db8000000000000000000000001004020010db800000001c8;MB 4 0 ffffffffffffffffffffffffffffffff003302000000144001010040020602010000fde9400304c0000201180a0908180a0909;MB 4 0 ffffffffffffffffffffffffffffffff0033020004180a090900144001010040020602010000fde9400304c0000201180a0908;QX 0 24/0a0908;QX 0 24/0a0909",
         # known finding C16-3 (= C03-1): session back up after Established->Idle, re-announcement stays withdrawn
         "F p;M 4 0 0 3 1 0 -;S 4 0 6 1;S 4 0 1 6;M 4 0 0 4 1 0 -;Q 0 1",
     ]
@@ -224,7 +288,9 @@ LEVEL_TEXT = ("Theorems over all files / queues of the model of process_file and
               "Singles in file order carrying fresh, distinct ids that stand for their index entry's peer, and an empty RIB then holds exactly "
               "those entries; BGP4MP records are applied in file order, each UPDATE as one Bulk attributed to the id that from then on is the "
               "only answer for (unit, address, AS), stable and unambiguous over any queue of update files; queue order; an unreadable file "
-              "is as if never queued; Established->Idle withdraws exactly the found id's routes; refutations for a peer named by two index "
+              "is as if never queued; Established->Idle withdraws exactly the found id's routes; an UPDATE is applied all or nothing on the octets of the "
+              "record (C04's decoder: undecodable = no update and an untouched register, decodable = one Bulk with every route event) and an undecodable one "
+              "is as if it were not in the file, for the update stream, the RIB and the property's reading over any queue; refutations for a peer named by two index "
               "entries and for dump+update records in one file (known findings). Kernel-checked, axiom-free; tied to the real unit by "
               "generated MRT files pushed through the real queue endpoint, queue loop, gate and RIB on every run.")
 DESIGN_REF = "DESIGN.md section 6, C16"
